@@ -75,6 +75,7 @@ def main(argv=None):
     if a.units:
         unit_names = [u for u in unit_names if u in a.units.split(',')]
     os.environ.setdefault('PYVC_UNIVERSE', '4' if a.tier == 'quick' else '5')
+    os.environ['PYVC_TIER'] = a.tier
     results = harness.run_units(unit_names, modules, jobs=a.jobs)
 
     rc = 0
@@ -100,6 +101,9 @@ def main(argv=None):
         except Undecided as e:
             undecided.append((lname, 0, str(e)))
     for o in lemma_results:
+        if o.get('status') == 'checker-error':
+            errors.append((o.get('unit'), 0, 'cross-check disagreement: %s' % o.get('info')))
+            continue
         obligations.append(o)
 
     known = load_known()
